@@ -126,6 +126,10 @@ class C06(E1Check):
         for n in (3, 60):
             for order in ("wp", "pw"):
                 progs.append({"kind": "burst", "n": n, "order": order, "small": False})
+        # a plain-alias component nested below a kind/name component publishes under the default name: it stays "default"
+        for order in ("wp", "pw"):
+            for wg, pg in ((False, False), (False, True), (True, False)):
+                progs.append({"kind": "alias-nested", "order": order, "wgate": wg, "pgate": pg, "small": True})
         # one component gives up waiting (its wait is cancelled) before the publication; another one keeps waiting
         for order in ("cwp", "wcp", "pcw", "cpw", "wpc"):
             for wg in (False, True):
@@ -202,6 +206,13 @@ class C06(E1Check):
             steps2.append(("add", "RA", "n", "wanted"))
             pub = {"alias": "p", "children": [], "prepare": None, "start": steps2}
             kids = [w, pub] if p["order"] == "wp" else [pub, w]
+        elif kind == "alias-nested":
+            w = {"alias": "w", "children": [], "prepare": None,
+                 "start": ([("gate", "w")] if p["wgate"] else []) + [("get", "RA", "default", "shortcut", False, "w")]}
+            inner = {"alias": "c", "children": [], "prepare": None,
+                     "start": ([("gate", "p0")] if p["pgate"] else []) + [("add", "RA", "default", "nested-pub")]}
+            pub = {"alias": "k/n", "children": [inner], "prepare": None, "start": None}
+            kids = [w, pub] if p["order"] == "wp" else [pub, w]
         elif kind == "giveup":
             wc = {"alias": "c", "children": [], "prepare": None, "start": [("getc", "RA", "n", "c")]}
             w = waiter("w", "start", p["wgate"], "shortcut")
@@ -244,14 +255,14 @@ class C06(E1Check):
         return {"alias": "", "children": kids, "prepare": None, "start": None}
 
     def has_match(self, p: dict) -> bool:
-        if p["kind"] in ("multi", "burst", "flaky", "generic", "audit", "giveup", "refused"):
+        if p["kind"] in ("multi", "burst", "flaky", "generic", "audit", "giveup", "refused", "alias-nested"):
             return True
         if p["kind"] == "alias":
             return p["where"] == "start"
         return any(MENU[i][0] for i in p["seq"])
 
     def deadlock_ok(self, program: Any) -> bool:
-        return program["kind"] in ("basic", "alias", "two", "multi", "burst", "flaky", "generic", "audit", "giveup", "refused") and not self.has_match(program)
+        return program["kind"] in ("basic", "alias", "two", "multi", "burst", "flaky", "generic", "audit", "giveup", "refused", "alias-nested") and not self.has_match(program)
 
     async def main(self, env: Any, program: dict) -> None:
         from asphalt.core import Context, ResourceNotFound, start_component
@@ -402,9 +413,9 @@ class C06(E1Check):
                 else:
                     fail("false-failure", f"waiter {who} failed with {ev[2]} (matching publication index {match_idx})")
         # completion: with a matching publication every waiter returns and start-up completes
-        if kind in ("basic", "alias", "two", "multi", "burst", "generic", "audit", "giveup", "refused"):
+        if kind in ("basic", "alias", "two", "multi", "burst", "generic", "audit", "giveup", "refused", "alias-nested"):
             waiters = {"basic": ["w"], "alias": ["w"], "two": ["w1", "w2"], "multi": ["wa", "wb"], "burst": ["w"], "generic": ["w"], "audit": ["w"],
-                       "giveup": ["w"], "refused": ["w"]}[kind]
+                       "giveup": ["w"], "refused": ["w"], "alias-nested": ["w"]}[kind]
             if self.has_match(program):
                 for w in waiters:
                     if not any(ev[0] == "get-" and ev[1] == w for ev in tr):
